@@ -238,7 +238,7 @@ func unicodeRange(t *rapid.T) string {
 }
 
 var kinds = []string{"ident", "custom", "function", "atkeyword", "hash", "string", "badstring", "url", "badurl", "number", "percentage", "dimension", "urange",
-	"match", "column", "cdo", "cdc", "colon", "semicolon", "comma", "bracket", "delim", "whitespace", "comment"}
+	"match", "column", "cdo", "cdc", "colon", "semicolon", "comma", "bracket", "delim", "whitespace", "comment", "backslash"}
 
 func genTok(t *rapid.T) tok {
 	switch rapid.SampledFrom(kinds).Draw(t, "kind") {
@@ -295,6 +295,9 @@ func genTok(t *rapid.T) tok {
 	case "bracket":
 		i := rapid.IntRange(0, 5).Draw(t, "bracket")
 		return tok{[]css.TokenType{css.LeftParenthesisToken, css.RightParenthesisToken, css.LeftBracketToken, css.RightBracketToken, css.LeftBraceToken, css.RightBraceToken}[i], []string{"(", ")", "[", "]", "{", "}"}[i]}
+	case "backslash":
+		// a backslash in front of a newline is not an escape: a delimiter (the caller writes the newline behind it)
+		return tok{css.DelimToken, "\\"}
 	case "delim":
 		return tok{css.DelimToken, rapid.SampledFrom(strings.Split("! $ % & * + . / < = > ? ^ ~ | @ # -", " ")).Draw(t, "delim")}
 	case "whitespace":
@@ -312,6 +315,9 @@ func isNameChar(c byte) bool {
 // from the serialization table of CSS Syntax section 9 extended with this lexer's extra tokens.
 func mustSeparate(a, b tok) bool {
 	fb := b.text[0]
+	if b.tt == css.DelimToken && b.text == "\\" {
+		return false // a backslash that is followed by a newline continues no name and starts no escape
+	}
 	switch a.tt {
 	case css.IdentToken, css.AtKeywordToken, css.HashToken, css.DimensionToken, css.CustomPropertyNameToken, css.UnicodeRangeToken:
 		if a.text == "--" && fb == '>' {
@@ -319,6 +325,9 @@ func mustSeparate(a, b tok) bool {
 		}
 		if a.tt == css.DimensionToken && fb == '+' && (strings.HasSuffix(a.text, "e") || strings.HasSuffix(a.text, "E")) {
 			return true // 0e +0 would become the number 0e+0
+		}
+		if a.tt == css.UnicodeRangeToken && fb == '-' && strings.ContainsAny(a.text[2:], "?-") {
+			return false // a range with wildcards or with an end already: a dash starts the next token
 		}
 		return isNameChar(fb) || fb == '(' || (a.tt == css.UnicodeRangeToken && fb == '?') || ((a.text == "u" || a.text == "U") && fb == '+')
 	case css.NumberToken:
@@ -413,6 +422,9 @@ func TestProp_Tokens(t *testing.T) {
 			}
 			look = look || strings.Contains(k.text, `\`) || (k.tt == css.NumberToken && strings.ContainsAny(k.text, ".eE"))
 			want = append(want, k)
+			if k.tt == css.DelimToken && k.text == "\\" {
+				want = append(want, tok{css.WhitespaceToken, rapid.SampledFrom([]string{"\n", "\r\n", "\f", "\r", "\n "}).Draw(t, "bsnl")})
+			}
 		}
 		var src strings.Builder
 		for _, k := range want {
